@@ -2,6 +2,7 @@ package main
 
 import (
 	"fmt"
+	"os"
 	"go/types"
 	"math/big"
 	"strings"
@@ -440,8 +441,8 @@ func (st *State) applyContract(fc *FuncContract, origin, inst *ssa.Function, arg
 			fail("%v", err)
 		}
 		ec := &EvalCtx{st: st, names: names, pkg: tpkg, tparams: tenv}
-		for gi, g := range splitConj(e) {
-			st.oblige("pre", fmt.Sprintf("%s.%d@%s", clauseLabel(c, i), gi+1, siteLabel), ec.evalBool(g), g.String())
+		for gi, g := range ec.evalConjuncts(e) {
+			st.oblige("pre", fmt.Sprintf("%s.%d@%s", clauseLabel(c, i), gi+1, siteLabel), g.t, g.text)
 		}
 	}
 	// snapshot for old()
@@ -465,14 +466,16 @@ func (st *State) applyContract(fc *FuncContract, origin, inst *ssa.Function, arg
 		rnames["result0"] = res
 	}
 	// havoc modifies
-	for _, c := range fc.clauses("modifies") {
-		if c.Mode != "" && c.Mode != vc.mode {
-			continue
+	{
+		var tgts []string
+		for _, c := range fc.clauses("modifies") {
+			if c.Mode != "" && c.Mode != vc.mode {
+				continue
+			}
+			tgts = append(tgts, splitTargets(c.Text)...)
 		}
 		ec := &EvalCtx{st: st, names: rnames, pkg: tpkg, tparams: tenv}
-		for _, tgt := range splitTargets(c.Text) {
-			ec.havocTarget(tgt)
-		}
+		ec.havocTargets(tgts)
 	}
 	saved := st.old
 	st.old = oldHeap
@@ -489,6 +492,9 @@ func (st *State) applyContract(fc *FuncContract, origin, inst *ssa.Function, arg
 	}
 	st.old = saved
 	st.resultsAllocated(res, origin.Signature.Results())
+	if os.Getenv("VQ_DEBUG_FEAS") != "" {
+		st.oblige("feas", "after@"+siteLabel, tFalse, "debug: path still feasible after this call (expected: NOT proved)")
+	}
 	return res
 }
 
@@ -568,11 +574,13 @@ func (st *State) invoke(c *ssa.CallCommon, recv Val, args []Val, site ssa.Instru
 	for k, v := range st.heap {
 		oldHeap[k] = v
 	}
-	for _, cl := range fc.clauses("modifies") {
-		ec := &EvalCtx{st: st, names: names, pkg: vc.fn.Pkg.Pkg, tparams: tenv}
-		for _, tgt := range splitTargets(cl.Text) {
-			ec.havocTarget(tgt)
+	{
+		var tgts []string
+		for _, cl := range fc.clauses("modifies") {
+			tgts = append(tgts, splitTargets(cl.Text)...)
 		}
+		ec := &EvalCtx{st: st, names: names, pkg: vc.fn.Pkg.Pkg, tparams: tenv}
+		ec.havocTargets(tgts)
 	}
 	res := st.freshResults(sig.Results(), "iret")
 	rnames := copyNames(names)
@@ -647,6 +655,7 @@ func (st *State) builtin(f *ssa.Builtin, c *ssa.CallCommon, args []Val, site ssa
 				return TV{r, types.Typ[types.Int]}
 			}
 			if _, isChan := types.Unalias(c.Args[0].Type()).Underlying().(*types.Chan); isChan {
+				st.setChanElem(c.Args[0].Type())
 				return TV{st.chanGet(a.T, "len"), types.Typ[types.Int]}
 			}
 		}
@@ -656,6 +665,7 @@ func (st *State) builtin(f *ssa.Builtin, c *ssa.CallCommon, args []Val, site ssa
 			return TV{a.Cap, types.Typ[types.Int]}
 		case TV:
 			if _, isChan := types.Unalias(c.Args[0].Type()).Underlying().(*types.Chan); isChan {
+				st.setChanElem(c.Args[0].Type())
 				return TV{st.chanGet(a.T, "cap"), types.Typ[types.Int]}
 			}
 		}
@@ -674,6 +684,7 @@ func (st *State) builtin(f *ssa.Builtin, c *ssa.CallCommon, args []Val, site ssa
 		return st.appendOp(c, args, site)
 	case "close":
 		ch := args[0].(TV).T
+		st.setChanElem(c.Args[0].Type())
 		lbl := fmt.Sprintf("close#%d", vc.ordinals[site])
 		st.oblige("chan", lbl+":not-nil", tNot(tEq(ch, tInt(0))), "close of non-nil channel")
 		st.oblige("chan", lbl+":not-closed", st.chanGet(ch, "open"), "close of a channel that is still open")
@@ -771,9 +782,9 @@ func (vc *VC) instrMod(in ssa.Instruction, li *loopInfo, depth int) {
 	case *ssa.Go:
 		li.mod["G:$spawned"] = true
 	case *ssa.Send, *ssa.Select:
-		li.mod["CH:sent"], li.mod["CH:rcvd"], li.mod["CHV:<"] = true, true, true
+		li.mod["CH:sent<"], li.mod["CH:rcvd<"], li.mod["CHV:<"] = true, true, true
 	case *ssa.MakeChan:
-		li.mod["CH:sent"], li.mod["CH:rcvd"], li.mod["CH:open"], li.mod["CH:cap"], li.mod[allocKey] = true, true, true, true, true
+		li.mod["CH:sent<"], li.mod["CH:rcvd<"], li.mod["CH:open<"], li.mod["CH:cap<"], li.mod[allocKey] = true, true, true, true, true
 	case *ssa.Alloc:
 		if x.Heap {
 			li.mod[allocKey] = true
@@ -785,7 +796,7 @@ func (vc *VC) instrMod(in ssa.Instruction, li *loopInfo, depth int) {
 		vc.typeMod(PtrV{Kind: "elem", Root: typeRepr(el)}, el, "", li)
 	case *ssa.UnOp:
 		if x.Op.String() == "<-" {
-			li.mod["CH:sent"], li.mod["CH:rcvd"], li.mod["CH:open"], li.mod["CHV:<"] = true, true, true, true
+			li.mod["CH:sent<"], li.mod["CH:rcvd<"], li.mod["CH:open<"], li.mod["CHV:<"] = true, true, true, true
 		}
 	}
 }
@@ -879,7 +890,7 @@ func (vc *VC) callMod(c *ssa.CallCommon, li *loopInfo, depth int) {
 			vc.typeMod(PtrV{Kind: "elem", Root: typeRepr(el)}, el, "", li)
 		}
 		if f.Name() == "close" {
-			li.mod["CH:open"] = true
+			li.mod["CH:open<"] = true
 		}
 		return
 	case *ssa.Function:
